@@ -33,38 +33,41 @@ Theorem c27_converted_refuted :
 Proof. exact converted_refuted. Qed.
 Print Assumptions c27_converted_refuted.
 
-(* -- the fixed evaluator: exact on every expression whose ppci typing is the C typing.
-      PARTIAL: [sema_agrees] excludes operand pairs on which CSemantics.get_common_type (max rank) or
-      CSemantics.promote (always int) differ from C (see the c27_fragment theorems). -- *)
-Theorem c27_eval_exact_partial : forall c e ty v,
-  wf_ctx c -> sema_agrees (dm_of c) e = true -> const_eval (dm_of c) e = Some (ty, v) ->
-  eval_expr c (elab e) = Ok v /\ typ_of (elab e) = ty.
-Proof. exact eval_exact_partial. Qed.
-Print Assumptions c27_eval_exact_partial.
+(* -- the current code (fixes C27-operators/-convert/-sema-promotions and c83990b): exact on EVERY constant
+      expression of the modelled syntax, on every data model -- *)
+Theorem c27_eval_exact : forall c e ty v,
+  wf_ctx c -> const_eval (dm_of c) e = Some (ty, v) ->
+  eval_expr c (elab c e) = Ok v /\ typ_of (elab c e) = ty.
+Proof. exact eval_exact_full. Qed.
+Print Assumptions c27_eval_exact.
 
 (* `T g = e;` : the global's image is the object representation of the converted value *)
-Theorem c27_converted_partial : forall c t e ty v,
-  wf_ctx c -> llong_size c = 8 -> sema_agrees (dm_of c) e = true ->
-  const_eval (dm_of c) e = Some (ty, v) ->
-  global_init c t (elab_init t e) =
+Theorem c27_converted : forall c t e ty v,
+  wf_ctx c -> llong_size c = 8 -> const_eval (dm_of c) e = Some (ty, v) ->
+  global_init c t (elab_init c t e) =
   Ok (bytes_of (little_endian c) (sizeof c t) (convert (dm_of c) t v)).
-Proof. exact converted_partial. Qed.
-Print Assumptions c27_converted_partial.
+Proof. exact converted_full. Qed.
+Print Assumptions c27_converted.
 
-(* what the fragment leaves out: the operand type pairs with a non-C common type, per data model *)
-Theorem c27_fragment_lp64 : disagreeing (dm_of x86_64) = [(TULong, TLLong); (TLLong, TULong)].
+(* the typing helpers of the current code agree with C on every expression *)
+Theorem c27_sema_agrees_all : forall c e, wf_ctx c -> sema_agrees c (dm_of c) e = true.
+Proof. intros c e W. now apply sema_agrees_all. Qed.
+Print Assumptions c27_sema_agrees_all.
+
+(* historical (before c83990b): promote = always int and get_common_type = max rank differed from C exactly
+   on these operand type pairs *)
+Theorem c27_fragment_lp64_orig : disagreeing (dm_of x86_64) = [(TULong, TLLong); (TLLong, TULong)].
 Proof. exact fragment_lp64. Qed.
-Print Assumptions c27_fragment_lp64.
-Theorem c27_fragment_ilp32 : disagreeing (dm_of arm32) = [(TUInt, TLong); (TLong, TUInt)].
+Print Assumptions c27_fragment_lp64_orig.
+Theorem c27_fragment_ilp32_orig : disagreeing (dm_of arm32) = [(TUInt, TLong); (TLong, TUInt)].
 Proof. exact fragment_ilp32. Qed.
-Print Assumptions c27_fragment_ilp32.
-Theorem c27_fragment_int16 :
+Print Assumptions c27_fragment_ilp32_orig.
+Theorem c27_fragment_int16_orig :
   forallb (fun p => ity_eqb (fst p) TUShort || ity_eqb (snd p) TUShort) (disagreeing (dm_of msp430)) = true.
 Proof. exact fragment_int16_ushort. Qed.
-Print Assumptions c27_fragment_int16.
+Print Assumptions c27_fragment_int16_orig.
 
 Example c27_nonvacuous :
   wf_ctx x86_64 /\ llong_size x86_64 = 8 /\
-  sema_agrees (dm_of x86_64) (EBin BDiv (EUn UNeg (lit 7)) (ELit TUInt 2)) = true /\
   const_eval (dm_of x86_64) (EBin BDiv (EUn UNeg (lit 7)) (ELit TUInt 2)) = Some (TUInt, 2147483644).
 Proof. exact nonvacuous. Qed.
